@@ -135,11 +135,22 @@ func c40BySpec(c *eng.Ctx, pkg, tag string) {
 	okEdges := len(setBlock.Preds) > 0
 	for _, p := range setBlock.Preds {
 		iff, ok := p.Instrs[len(p.Instrs)-1].(*ssa.If)
-		if !ok || p.Succs[0] != setBlock {
+		if !ok || len(p.Succs) != 2 || p.Succs[0] == p.Succs[1] {
 			okEdges = false
 			continue
 		}
-		k := fieldEqSpec(iff.Cond)
+		// the edge into the insertion block must establish the equality
+		// (true edge of ==, or false edge of != after an inverted test)
+		a := eng.MkAtom(iff.Cond, p.Succs[0] == setBlock)
+		k := ""
+		if a.Pos {
+			k = fieldEqSpec(a.V)
+			if b, isB := a.V.(*ssa.BinOp); isB && b.Op == token.NEQ {
+				eq := *b
+				eq.Op = token.EQL
+				k = fieldEqSpec(&eq)
+			}
+		}
 		if k == "" {
 			okEdges = false
 		}
@@ -243,6 +254,39 @@ func c40ByLabel(c *eng.Ctx, pkg, tag string) {
 	if nApp != 1 {
 		c.Problem("R2", "%s: expected one append, found %d", tag, nApp)
 	}
+	// a session is passed over only because the selector said no: every way back
+	// to the loop header other than through the append carries Matches(...) false
+	for _, hdr := range fn.Blocks {
+		if hdr.Comment != "rangeiter.loop" {
+			continue
+		}
+		nSkip, badSkip := 0, ""
+		for _, p := range hdr.Preds {
+			if !hdr.Dominates(p) {
+				continue
+			}
+			appends := false
+			for _, in := range p.Instrs {
+				if cl, ok := in.(*ssa.Call); ok && eng.CalleeName(cl) == "builtin:append" {
+					appends = true
+				}
+			}
+			if appends {
+				continue
+			}
+			nSkip++
+			said := false
+			for _, a := range edgeGuards(p, hdr) {
+				if cl, ok := a.V.(*ssa.Call); ok && !a.Pos && cl.Call.IsInvoke() && cl.Call.Method.Name() == "Matches" {
+					said = true
+				}
+			}
+			if !said {
+				badSkip = atomsShort(edgeGuards(p, hdr))
+			}
+		}
+		c.Check("R2", tag+"/skipped-only-when-selector-rejects", hdr.Instrs[0].Pos(), nSkip > 0 && badSkip == "", "a session is left out only on the false edge of selector.Matches — no pre-filter (e.g. on empty labels) decides instead of the selector", badSkip)
+	}
 	for _, r := range eng.Returns(fn) {
 		res := eng.RetResults(r)
 		g := eng.Guards(r)
@@ -327,7 +371,12 @@ func c40Comparator(c *eng.Ctx, pkg, tag string) {
 	okT := false
 	detail := bad
 	if sl != "" && se != "" && nl != "" && bad == "" {
-		eq, cex, err := eng.TruthTableEqual(be, []string{sl, se, nl}, func(env map[string]bool) bool { return env[sl] || (env[se] && env[nl]) })
+		eq, cex, err := eng.TruthTableEqual(be, []string{sl, se, nl}, func(env map[string]bool) bool {
+			if env[sl] && env[se] {
+				return be.Eval(env) // a.S < b.S and a.S == b.S cannot both hold: don't care
+			}
+			return env[sl] || (env[se] && env[nl])
+		})
 		okT = eq && err == nil
 		if !eq {
 			detail = fmt.Sprint(cex)
